@@ -187,12 +187,23 @@ def vocab(ap):
     }
 
 
-SAFE_VALUE_CHARS = 'abcdefghijklmnopqrstuvwxyzABCDEFGHIJKLMNOPQRSTUVWXYZ0123456789_-.*,:/+é中'
+SAFE_VALUE_CHARS = 'abcdefghijklmnopqrstuvwxyzABCDEFGHIJKLMNOPQRSTUVWXYZ0123456789_-.*,:/+?é中'
+
+
+VALUE_SAMPLES = ['http://x/?id=3', 'a==b', 'n=len', '=', '==', 'k=v=w', 'x.y:z/w?q=1,2', 'é=中', '=x', 'x=']
 
 
 def gen_token(rng, allow_eq=False):
+    """a token without white space / parentheses; with `allow_eq` (the VALUE of a key=value option, or a
+    free-form word) it may contain '=' anywhere: only the first '=' of `key=value` separates"""
+    if allow_eq and rng.random() < 0.15:
+        return rng.choice(VALUE_SAMPLES)
     n = rng.randint(1, 8)
     t = ''.join(rng.choice(SAFE_VALUE_CHARS) for _ in range(n))
+    if allow_eq and rng.random() < 0.3:
+        for _ in range(rng.choice([1, 1, 2])):
+            i = rng.randint(0, len(t))
+            t = t[:i] + '=' + t[i:]
     if not allow_eq:
         t = t.replace('=', '')
     return t or 'x'
